@@ -407,7 +407,9 @@ func (in *Interp) choice(n int, what string) int {
 		d := p.prefix[p.pos]
 		p.pos++
 		p.dec = append(p.dec, d)
-		in.tapeAdd(TapeEntry{Kind: "choice", Vals: []uint64{uint64(d.V)}, Note: what})
+		if what == "verifChoice" {
+			in.tapeAdd(TapeEntry{Kind: "choice", Vals: []uint64{uint64(d.V)}, Note: what})
+		}
 		return int(d.V)
 	}
 	for k := n - 1; k >= 1; k-- {
@@ -415,7 +417,9 @@ func (in *Interp) choice(n int, what string) int {
 		in.ex.push(alt)
 	}
 	p.dec = append(p.dec, Decision{V: 0})
-	in.tapeAdd(TapeEntry{Kind: "choice", Vals: []uint64{0}, Note: what})
+	if what == "verifChoice" {
+		in.tapeAdd(TapeEntry{Kind: "choice", Vals: []uint64{0}, Note: what})
+	}
 	return 0
 }
 
